@@ -56,6 +56,7 @@ class Contract:
         self.drop = kw.get("drop", [])  # statements dropped by extraction (unparsed-prefix match)
         self.decreases = kw.get("decreases")
         self.min_obligations = kw.get("min_obligations", 1)
+        self.exit_unreachable = kw.get("exit_unreachable", False)  # proof by contradiction lemmas
 
 
 def _labelled(items, prefix):
@@ -152,18 +153,22 @@ class Engine(ExprMixin, CallMixin):
         return outs
 
     def exec_stmt_ghosted(self, stmt, st):
+        dropped = False
         if self.cur is not None and self.cur.drop:
             txt = ast.unparse(stmt)
             if any(txt.startswith(d) for d in self.cur.drop):
                 self.dropped.add(txt.splitlines()[0][:80])
-                return [Outcome("normal", st)]
+                dropped = True
         before, after = self.ghost_for(stmt)
         sts = [st]
         for code in before:
             sts = self.run_ghost(code, sts)
         outs = []
         for s in sts:
-            outs.extend(self.exec_stmt(stmt, s))
+            if dropped:
+                outs.append(Outcome("normal", s))
+            else:
+                outs.extend(self.exec_stmt(stmt, s))
         if after:
             res = []
             for o in outs:
@@ -828,6 +833,8 @@ class Engine(ExprMixin, CallMixin):
                     else:
                         raise Unsupported(f"for over {v.ty}")
         outs = self.drain_raises([])
+        if spec.get("seq") and mode[0] in ("seq", "enum", "set"):
+            st.env[spec["seq"]] = mode[1]  # ghost name for the iterated value
         if self.unroll:
             return outs + self.unroll_for(stmt, st, mode)
         is_set = mode[0] in ("set", "items")
